@@ -207,6 +207,56 @@ def hier_global(S, family, p, npts, boundary, out_len):
     S.observe('integral', list(np.ravel(integral)))
 
 
+def _refine(levels, i):
+    lv = list(levels)
+    lv.insert(i + 1, max(lv[i], lv[i + 1]) + 1)
+    return lv
+
+
+def _tree17(kind):
+    """Three refinement trees with 17 points: complete (level 4), left-heavy and right-heavy (complete level 3, then the outermost
+    interval refined eight times)."""
+    lv = [0, 0]
+    for _ in range(3 if kind != 'complete' else 4):
+        for i in range(len(lv) - 2, -1, -1):
+            lv = _refine(lv, i)
+    if kind == 'left':
+        for _ in range(8):
+            lv = _refine(lv, 0)
+    elif kind == 'right':
+        for _ in range(8):
+            lv = _refine(lv, len(lv) - 2)
+    assert len(lv) == 17 and lib.valid_tree(lv), lv
+    return lv
+
+
+def hier_global_long(S, family, p, out_len):
+    """Poles with >= 15 points (QR branch of HierarchizationLSG) on ONE grid object that is given a second, different 17-point grid
+    afterwards (as the adaptive schemes do): hierarchisation + interpolation reproduces the nodal values both times."""
+    G = _G()
+    from sparseSpACE.ComponentGridInfo import ComponentGridInfo
+    a, b = np.zeros(1), np.ones(1)
+    grid = (G.GlobalLagrangeGrid if family == 'lagrange' else G.GlobalBSplineGrid)(a, b, boundary=True, p=p)
+    kinds = ['complete', 'left', 'right']
+    first = S.choice('first', 3)
+    second = S.choice('second', 3)
+    for rnd, k in enumerate((kinds[first], kinds[second])):
+        lv = _tree17(k)
+        xs = [float(x) for x in lib.dyadic_coords(lv, 0.0, 1.0)]
+        grid.set_grid([xs], [lv])
+        f = lib.make_function(S, 'F%d' % rnd, 1, out_len)
+        levelvec = [max(lv)]
+        grid.integrate(f, levelvec, a, b)
+        cg = ComponentGridInfo(levelvector=levelvec, coefficient=1)
+        pts = [tuple(float(x) for x in q) for q in grid.getPoints()]
+        vals = grid.interpolate(pts, cg)
+        ok = True
+        for q, v in zip(pts, vals):
+            want = f.F(list(q))
+            ok = sym_and(ok, *[S.eq(v[j], want[j]) for j in range(out_len)])
+        S.prove(ok, 'global-long:interpolate-returns-nodal-values-at-grid-points-(grid %d on the same object)' % (rnd + 1))
+
+
 BOUNDS = {
     'quick': {'symbolic knots': 'p <= 2 all knots symbolic; p = 3 one symbolic knot', 'calculus': 'p <= 3 Lagrange, p in {1,3} B-spline on 8..10 uniform knots', 'local grids': 'd=1 levels <= 3, d=2 levels <= (2,2), p in {1,2,3} (B-spline 1,3), output length 1/2',
               'global grids': 'trees with <= 6 points (d=1), (4,3) points (d=2), p in {1,2,3}'},
@@ -221,7 +271,7 @@ META = {
     'bounds': BOUNDS,
     'assumptions': ['numpy.linalg.solve replaced by exact rational elimination on the concrete collocation matrix (contract: the solution; a singular matrix raises) - the symbolic nodal values are the right-hand side',
                     'grid geometry concrete (dyadic); knots symbolic only in the delta property', 'identities through Gauss nodes / inexact float constants compared coefficient-wise with 1e-12 (1e-9 for the polynomial reproduction)'],
-    'outside': ['n >= 15 points per pole (QR branch, LAPACK)', 'p > 3', 'd > 2', 'modified-basis variants'],
+    'outside': ['QR branch (>= 15 points per pole) beyond the 17-point 1-D grids of hier-global-long; numpy.linalg.qr + scipy solve_triangular are modelled jointly as an exact solve', 'p > 3', 'd > 2', 'modified-basis variants'],
 }
 
 MANIFEST_ENTRY = {
@@ -262,4 +312,8 @@ def jobs(tier):
                     js.append(Job('hier-global[%s,p=%d,pts=%s,%s]' % (family, p, 'x'.join(map(str, npts)), 'b' if boundary else 'nb'), hier_global,
                                   {'family': family, 'p': p, 'npts': list(npts), 'boundary': boundary, 'out_len': 2 if p == 2 else 1},
                                   validate=(5 if q else 2), budget_s=(600 if q else 3000)))
+    for family, ps in (('lagrange', (1, 2) if q else (1, 2, 3)), ('bspline', (1,) if q else (1, 3))):
+        for p in ps:
+            js.append(Job('hier-global-long[%s,p=%d,pts=17,b]' % (family, p), hier_global_long, {'family': family, 'p': p, 'out_len': 1},
+                          validate=(3 if q else 1), budget_s=(600 if q else 3000)))
     return js
